@@ -5,6 +5,7 @@ package plugin
 
 import (
 	"crypto/tls"
+	"errors"
 	"fmt"
 	"io"
 	"net"
@@ -122,17 +123,27 @@ func (c *RPCClient) Close() error {
 	var empty struct{}
 	returnErr := c.control.Call("Control.Quit", true, &empty)
 
-	// Close the other streams we have
-	if err := c.control.Close(); err != nil {
+	// The plugin is free to exit as soon as it has seen the request, which
+	// can be before its reply made it back to us. The connection going away
+	// while we wait for the reply is therefore the plugin shutting down as
+	// asked, not a failed request.
+	if errors.Is(returnErr, io.ErrUnexpectedEOF) {
+		returnErr = nil
+	}
+
+	// Close the other streams we have. For the same reason the session may
+	// already have been shut down underneath us by the exiting plugin; there
+	// is nothing left to close then.
+	if err := c.control.Close(); err != nil && !isSessionGone(err) {
 		return err
 	}
-	if err := c.stdout.Close(); err != nil {
+	if err := c.stdout.Close(); err != nil && !isSessionGone(err) {
 		return err
 	}
-	if err := c.stderr.Close(); err != nil {
+	if err := c.stderr.Close(); err != nil && !isSessionGone(err) {
 		return err
 	}
-	if err := c.broker.Close(); err != nil {
+	if err := c.broker.Close(); err != nil && !isSessionGone(err) {
 		return err
 	}
 
@@ -140,6 +151,12 @@ func (c *RPCClient) Close() error {
 	// since we MUST return non-nil error if this fails so that Client.Kill
 	// will properly try a process.Kill.
 	return returnErr
+}
+
+// isSessionGone reports whether err says that the connection to the plugin
+// has already been shut down.
+func isSessionGone(err error) bool {
+	return errors.Is(err, yamux.ErrSessionShutdown) || errors.Is(err, rpc.ErrShutdown)
 }
 
 func (c *RPCClient) Dispense(name string) (interface{}, error) {
